@@ -37,20 +37,10 @@ def run(ctx):
     r02_4(ctx, wake_fn)
     r02_5(ctx, wake_fn)
     r02_6(ctx)
-    # "and by the closing of the observable": the close (which wakes) must actually be reached when the last owner goes away - C03/R03.2, R03.3
-    from . import c03
-    closes = find_close_fn(F)
-    if len(closes) == 1:
-        close_fn = closes[0][0]
-        for cf in F.find(crate=EY, pred=lambda f: f.raw.get("impl_trait") == "std::ops::Drop"):
-            st = cf.raw.get("self_ty") or ""
-            b = cf.built
-            cc = [(blk, t) for blk, t in b.calls() if F.local_callee(cf, t) is close_fn]
-            if st.startswith("shared::SharedObservable<"):
-                c03.check_shared_drop(ctx, cf, b, cc)
-            elif st.startswith("unique::Observable<"):
-                ok = bool(cc) and b.post_dominated_by(0, [blk for blk, _ in cc])
-                ctx.verdict(ok, "R03.3", cf, "unique-drop-closes", cf.loc(), "Observable's Drop reaches close on every path", "Observable's Drop can return without closing: pending subscribers are never woken")
+    # "and by the closing of the observable": the close (which wakes) must actually be reached when the last owner goes away
+    from . import c03, groups
+    c03.run(ctx)
+    groups.eyeball_poll_typestate(ctx)
 
 
 def r02_3(ctx, wake_fn):
